@@ -125,10 +125,10 @@ TEXTS["C09"] = {
 }
 TEXTS["C13"] = {
     "text": "The same logical resize or alpha operation is executed through plain typed images and through each compiled container pair "
-            "(11 source kinds x 8 destination kinds incl. a user-defined view type that leaves the trait's provided methods at their defaults, typed and dynamic entry points) at random placements inside larger parents; the "
+            "(13 source kinds x 8 destination kinds incl. mutable views in the source role and a user-defined view type that leaves the trait's provided methods at their defaults, typed and dynamic entry points) at random placements inside larger parents; the "
             "destination pixels must be bit-identical. Also under ASan.",
     "design_ref": "DESIGN.md section 2, C13",
-    "note": "22 of the 88 (source kind, destination kind) pairs are compiled (every source kind with a plain destination, a plain source "
+    "note": "24 of the 104 (source kind, destination kind) pairs are compiled (every source kind with a plain destination, a plain source "
             "with every destination kind, and the matching special pairs); the rest would multiply compile time without new code paths.",
     "technique": "runtime differential monitoring across container kinds and memory layouts",
 }
